@@ -63,9 +63,11 @@ class Producer:
     """Feeds tagged bytes tags[pos] into a StreamInterface (inputs <pfx>valid/payload/last, observed <pfx>ready).
     level: 0 = valid low; 1 = valid presented in every cycle while bytes are left; k > 1 = becomes 1 after k-1 more cycles.
     last_at: positions that carry `last` when pushed by the level mode; one-shot pushes (once = 0/1) choose `last`
-    themselves.  Records the positions pushed with last."""
-    def __init__(self, tags, pos, lasts, level, last_at=(), flush=0, pfx="s_", flush_name="flush"):
+    themselves.  Records the positions pushed with last.  While valid is low, payload/last carry `junk` (stream signals
+    other than valid are don't-care then, so a legal producer may leave anything there, e.g. `last` tied high or set up early)."""
+    def __init__(self, tags, pos, lasts, level, last_at=(), flush=0, pfx="s_", flush_name="flush", junk=None):
         self.tags, self.pos, self.lasts = tags, pos, lasts
+        self.junk = junk                 # None | (last, payload) driven while valid is low (don't-care values of a legal producer)
         self.level, self.last_at, self.flush = level, last_at, flush
         self.once = None
         self.pfx, self.flush_name = pfx, flush_name
@@ -74,7 +76,7 @@ class Producer:
         self.names = (pfx + "valid", pfx + "payload", pfx + "last", pfx + "ready")
 
     def clone(self):
-        p = Producer(self.tags, self.pos, self.lasts, self.level, self.last_at, self.flush, self.pfx, self.flush_name)
+        p = Producer(self.tags, self.pos, self.lasts, self.level, self.last_at, self.flush, self.pfx, self.flush_name, self.junk)
         return p
 
     def inputs(self):
@@ -94,6 +96,7 @@ class Producer:
             d[nv] = 1; d[np_] = self.tags[self.pos]; d[nl] = self._presented
         else:
             d[nv] = 0
+            if self.junk is not None: d[nl], d[np_] = self.junk
         self.once = None
         return d
 
